@@ -16,6 +16,11 @@ Local Open Scope Z_scope.
 
 Definition lastn {A} (n : nat) (l : list A) : list A := skipn (length l - n) l.
 
+(* the last n elements for a Go int n: all of l when n >= |l|, none when n <= 0 (written so that it
+   computes for n near +-2^63 as well; lastz n l = lastn (Z.to_nat n) l is C20_Window.lastz_lastn) *)
+Definition lastz {A} (n : Z) (l : list A) : list A :=
+  skipn (Z.to_nat (zlen l - Z.max 0 (Z.min n (zlen l)))) l.
+
 Fixpoint pushes_of (ops : list op) : list N :=
   match ops with
   | [] => []
@@ -33,11 +38,11 @@ Fixpoint distinct (l : list N) : nat :=
 (* The reference window: an id that is still buffered is not buffered twice (a re-push changes
    nothing); otherwise it becomes the newest block and the oldest is dropped beyond `size`. *)
 Definition win_step (size : Z) (w : list N) (x : N) : list N :=
-  if memN x w then w else lastn (Z.to_nat size) (w ++ [x]).
+  if memN x w then w else lastz size (w ++ [x]).
 Definition spec_window (size : Z) (pushes : list N) : list N := fold_left (win_step size) pushes [].
 
 (* the burst a subscriber asking for `b` blocks gets when the window is w: the last min(b,|w|) *)
-Definition burst_of (b : Z) (w : list N) : list N := lastn (Z.to_nat (Z.min b (zlen w))) w.
+Definition burst_of (b : Z) (w : list N) : list N := lastz (Z.min b (zlen w)) w.
 
 (* ------------------------------------------------------------------ window *)
 
@@ -54,7 +59,7 @@ Definition C20_window : Prop :=
     NoDup (window sv) /\
     zlen (window sv) = Z.max 0 (Z.min size (Z.of_nat (distinct P))) /\
     (* with pairwise distinct pushes it is literally the last `size` pushes *)
-    (NoDup P -> window sv = lastn (Z.to_nat size) P) /\
+    (NoDup P -> window sv = lastz size P) /\
     (* the newest pushed block is buffered *)
     (size > 0 -> forall P' x, P = P' ++ [x] -> In x (window sv)) /\
     (* Ready() is exactly "size distinct blocks were seen": it never flips back *)
